@@ -39,6 +39,7 @@ def handle (req ans : String) : Verdict :=
   | "xr" :: _ => handleL2 req ans
   | "xs" :: _ => handleSeq req ans
   | "asm" :: _ => handleL3 req ans
+  | "asm2" :: _ => handleL3 req ans
   | "cli" :: _ => handleL4 req ans
   | _ => handleL1 r (words ans)
 
